@@ -332,7 +332,7 @@ func runConc(run *mc.Run) int {
 	cov.Extra["programs"] = per
 	// free-running race pass in a separate binary
 	if bin := os.Getenv("VERIF_RACE_BIN"); bin != "" {
-		cmd := exec.Command(bin, "-test.timeout", "0")
+		cmd := exec.Command(bin, "-test.timeout", "0", "-test.run", "^TestCheck$")
 		cmd.Env = append(os.Environ(), "VERIF_RACE_CHILD=1", "GORACE=halt_on_error=0 exitcode=66")
 		out, err := cmd.CombinedOutput()
 		races := strings.Count(string(out), "WARNING: DATA RACE")
